@@ -131,6 +131,26 @@ class IntegrateFacts:
     def in_loop(self, n: Node) -> bool:
         return n.id in self.loop_nodes
 
+    def time_step_def(self) -> Optional[ast.Assign]:
+        """The single assignment defining the local that is added to the time in the loop (`t += tau`, `t = t + tau`,
+        `t = tau + t`); None when the increment is not a plain local with one reaching plain definition."""
+        tau_def = None
+        for n in ast.walk(self.loop):
+            inc = None
+            if isinstance(n, ast.AugAssign) and isinstance(n.target, ast.Name) and n.target.id == self.t \
+                    and isinstance(n.op, ast.Add) and isinstance(n.value, ast.Name):
+                inc = n.value.id
+            elif isinstance(n, ast.Assign) and len(n.targets) == 1 and isinstance(n.targets[0], ast.Name) \
+                    and n.targets[0].id == self.t and isinstance(n.value, ast.BinOp) and isinstance(n.value.op, ast.Add):
+                a_, b_ = n.value.left, n.value.right
+                if isinstance(a_, ast.Name) and isinstance(b_, ast.Name) and self.t in (a_.id, b_.id) and a_.id != b_.id:
+                    inc = b_.id if a_.id == self.t else a_.id
+            if inc is not None:
+                defs = self.defs_reaching(n, inc)
+                if len(defs) == 1 and isinstance(defs[0].ast, ast.Assign):
+                    tau_def = defs[0].ast
+        return tau_def
+
 
 def _assigned_value(n: Node, name: str) -> Optional[ast.AST]:
     """Value expression assigned to ``name`` by node n (None for tuple-unpack, for-targets, ...)."""
